@@ -66,7 +66,7 @@ fn main() {
         let twin = fresh_mode == 1 && engine != "conc" && engine != "sampler"
             && !toks.iter().any(|t| *t == "freq" || *t == "seqfreq" || *t == "samplestats")
             // the draws of rayon workers are not reproducible from the case's seed: no repetition for threaded registers
-            && !(engine == "reg" && toks.iter().any(|t| *t == "threads"));
+            && !(engine == "reg" && toks.iter().any(|t| matches!(*t, "threads" | "tensorrt" | "tensorlt" | "mulassignt")));
         let payload = if fresh_mode == 2 {
             on_fresh_thread(&engine, &toks)
         } else {
